@@ -203,6 +203,8 @@ def run(rep, tier):
             why = inp["why"]
             if e["ev"] == "abort" and why.startswith("html nesting depth"):
                 cls = K_HTML % (e["ep"], int(why.split()[-1]))
+            elif e["ev"] == "abort" and why.startswith("nested bundled replacements depth"):
+                cls = "entrypoint/abort/%s/nested-bundled-replacements-depth-%d" % (e["ep"], int(why.split()[-1]))
             else:
                 cls = "entrypoint/%s/%s" % (e["ev"], e["ep"])
             det["deaths"] = [d for d in deaths if d["pos"] == e["pos"]]
@@ -231,7 +233,7 @@ def run(rep, tier):
     rep.cov["distinct_nontrivial"] = sum(1 for x in pure if x["why"] != "seed") + len(edits)
     rep.cov["exhaustive"] = False
     rep.cov["rule"] = RULE
-    rep.assumptions += ["calls run on a thread with an 8 MiB stack (the Linux main-thread default); the budget per call is 12 s of CPU time (wall-clock cap 300 s)",
+    rep.assumptions += ["calls run on a thread with a 2 MiB stack (the default of spawned Rust threads, where async runtimes run this code); the budget per call is 12 s of CPU time (wall-clock cap 300 s)",
                         "results are compared by a 64-bit digest of their Debug / Display / JSON rendering",
                         "size bounds: strings up to 70000 bytes, JSON nesting up to 200, HTML nesting up to 21800 (what fits in a 65535-byte event)"]
 
